@@ -1548,7 +1548,17 @@ def r11_tag_policy_as_declared(ctx):
     c02.r6_tag_policy(Renamed(ctx, "C19.R11", "a declaration's tags and `unpublished` flag are honoured by registration exactly as the tag policy table says"))
 
 
-RULES = [("C19.R11", r11_tag_policy_as_declared), ("C19.R10", r10_document_uses_the_version_filter_everywhere), ("C19.R9", r9_declared_body_limit_is_the_effective_limit), ("C19.R1", r1_one_producer), ("C19.R2a", r2a_validate), ("C19.R2b", r2b_emission), ("C19.R3", r3_builders),
+def r12_extension_declared_is_extension_documented(ctx):
+    """`what is declared is what is documented`, quantified over extractor lists: the extension (pagination / websocket) declared by one of a
+    handler's extractors is the extension_mode ApiEndpoint::new / new_for_types record for the operation, whatever the position of that
+    extractor.  This is C07.R12, re-evaluated here (adversary change C19-G factored the merge of the extractors' ExtensionModes into a
+    helper ending in `(_, y) => y`: a paginated Query followed by another extractor was documented without `x-dropshot-pagination`)."""
+    from . import c07
+    from .lib_c01 import Renamed
+    c07.r12_extension_mode_merge(Renamed(ctx, "C19.R12", "the extension an extractor declares (pagination, websocket) is the extension documented for the operation, wherever that extractor stands among the handler's arguments"))
+
+
+RULES = [("C19.R12", r12_extension_declared_is_extension_documented), ("C19.R11", r11_tag_policy_as_declared), ("C19.R10", r10_document_uses_the_version_filter_everywhere), ("C19.R9", r9_declared_body_limit_is_the_effective_limit), ("C19.R1", r1_one_producer), ("C19.R2a", r2a_validate), ("C19.R2b", r2b_emission), ("C19.R3", r3_builders),
          ("C19.R4", r4_new_vs_stub), ("C19.R5", r5_tables), ("C19.R6", r6_document), ("C19.R7", r7_versions), ("C19.R8", r8_doc_lines)]
 
 _M = "dropshot_endpoint/src/metadata.rs"
@@ -1853,3 +1863,4 @@ SELFTEST += [
 ]
 LEVEL_TEXT += " Also (R10 = C06.R1): every endpoint scan of the document generator is filtered by the document's version."
 LEVEL_TEXT += " Also (R11 = C02.R6): registration applies the tag policy table to published endpoints only."
+LEVEL_TEXT += " Also (R12 = C07.R12): the extension mode of a tuple of extractors is the merge of the members' modes, decided by interpretation over every assignment of modes to the members."
